@@ -296,7 +296,7 @@ def refinement_subcase(ctx, rng, path, K_exp, lab_exp, br_exp, recip, wit):
     if not ok:
         return None
     # the original points (and their path coordinate) are kept
-    ctx.close("get_refined:original_points_not_kept", np.asarray(ref.K_list)[new], K_exp, rtol=0, atol=1e-13 * max(
+    ctx.close("get_refined:original_points_not_kept", np.asarray(ref.K_list)[new], K_exp, rtol=0, atol=1e-12 * max(
         1.0, np.abs(K_exp).max()), what="refined[new(i)] == original[i]", witness=w)
     kl0 = path.getKline()
     ctx.close("get_refined:Kline_of_original_points_changed", ref.getKline()[new], kl0, rtol=0,
@@ -420,7 +420,7 @@ def pointwise_oracle(wb, tab, system, K, names, ibands, has_AA):
 def compare_tab(ctx, res, oracle, K, system, ibands, good, a0, tag, wit):
     """rows of the tabulation vs the single-point oracle"""
     K = np.asarray(K)
-    ctx.close(f"{tag}:kpoints!=path.K_list", np.asarray(res.kpoints), K, rtol=0, atol=1e-14 * max(1, np.abs(K).max()),
+    ctx.close(f"{tag}:kpoints!=path.K_list", np.asarray(res.kpoints), K, rtol=0, atol=1e-12 * max(1, np.abs(K).max()),
               what="TABresult.kpoints", witness=wit)
     E = gen_systems.bands(system, K)
     if ibands is not None:
@@ -637,8 +637,9 @@ def case(ctx, rng, idx, state):
     recip = recip_of(lattice)
     if use_sp:
         path, K = sp_out[0], sp_out[1]
-        info = dict(kind="seekpath_" + sp_out[3], nnodes=len(path.labels), nbreaks=len(path.breaks), revisit=True,
-                    gshift=False)
+        Kmod = np.round(K % 1, 9) % 1
+        info = dict(kind="seekpath_" + sp_out[3], nnodes=len(path.labels), nbreaks=len(path.breaks),
+                    revisit=bool(len(np.unique(Kmod, axis=0)) < len(K)), gshift=False)
         wit = dict(path="seekpath", cell=sp_out[3], K_list=K)
         ctx.count("tab_on_seekpath")
     else:
